@@ -21,6 +21,7 @@ import EzdxfVerif.Model.EncodingExt
 import EzdxfVerif.Gen.EncodingTables
 import EzdxfVerif.Gen.CjkTables
 import EzdxfVerif.Lemmas.EncodingCjk
+import EzdxfVerif.Props.C03
 
 namespace EzdxfVerif.Props.C09
 open EzdxfVerif.Encoding
@@ -2362,6 +2363,335 @@ theorem trail_backslash_is_not_a_mif_escape : ∀ T ∈ dbcsTabs, ∀ (pages : N
   have h2 : hasMif [x, 77, 43, k, a, b, c, d] = false := by simp [hasMif, mifAt, hne]
   simp [recoverText, h1, h2]
 
+/-! ## Final round: whole Binary DXF files (composition with C03), consolidated astral statement, name respelling -/
+
+/-- what a tag must satisfy: a code the format can frame; a text value under a string typed code, plain, without
+    NUL/LF/CR and without best-fit characters; any other value within the width of its class (C03's `ValWF`) -/
+def TextTagOK (c : Codec) (good : Nat → Prop) (t : TTag) : Prop :=
+  t.code < 65536 ∧
+  match t.val with
+  | .text s => EzdxfVerif.Codec.writerCls t.code = .str
+      ∧ (∀ x ∈ s, x ≤ 0xFFFF ∧ isEscSurrogate x = false ∧ (x ≠ 0 ∧ x ≠ 10 ∧ x ≠ 13) ∧ ((c.enc x).isSome → good x))
+      ∧ hasDxfUnicode s = false
+  | .raw v => EzdxfVerif.Props.C03.ValWF ⟨t.code, v⟩ ∧ (∀ b, v ≠ .str b)
+
+private theorem encodeTag_ok (c : Codec) (good : Nat → Prop) (L : Lawful c good) (t : TTag) (h : TextTagOK c good t) :
+    ∃ bt, encodeTag c fixedFmt t = .ok bt ∧ EzdxfVerif.Props.C03.TagOK' bt ∧ decodeTag c bt = t := by
+  obtain ⟨code, val⟩ := t
+  obtain ⟨hc, hv⟩ := h
+  cases val with
+  | text s =>
+    simp only at hv hc
+    obtain ⟨hcls, hs, hn⟩ := hv
+    obtain ⟨b, hb, hdec⟩ := escape_roundtrip c good L s
+      (fun x hx => ⟨(hs x hx).1, (hs x hx).2.1, (hs x hx).2.2.2⟩) hn
+    obtain ⟨b', hb', hclean⟩ := encode_clean c good L s (fun x hx => ⟨(hs x hx).1, (hs x hx).2.1⟩)
+      (fun x hx => (hs x hx).2.2.1)
+    rw [hb] at hb'; cases hb'
+    refine ⟨⟨code, .str b⟩, by simp [encodeTag, hb, Except.map], ⟨hc, ?_⟩, by simp [decodeTag, hdec]⟩
+    unfold EzdxfVerif.Props.C03.ValWF
+    simp only [hcls]
+    exact fun y hy => (hclean y hy).1
+  | raw v =>
+    simp only at hv hc
+    refine ⟨⟨code, v⟩, rfl, ⟨hc, hv.1⟩, ?_⟩
+    cases v with
+    | str b => exact absurd rfl (hv.2 b)
+    | int _ => rfl
+    | dbl _ => rfl
+    | bin _ => rfl
+
+/-- A whole Binary DXF tag stream, end to end (C09's codec theorems as the text layer of C03's `bin_file_roundtrip_all`):
+    every string value is encoded with the document codec and the `dxfreplace` handler of the source, the tags are
+    framed by `BinaryTagWriter` (both group code widths), `binary_tags_loader` reads the bytes back tag for tag, the
+    codec decodes the string values and `decode_dxf_unicode` returns the texts - for every list of well-formed tags and
+    every codec with the laws -/
+theorem binary_file_text_roundtrip (c : Codec) (good : Nat → Prop) (L : Lawful c good) (r12 : Bool) (ts : List TTag)
+    (h : ∀ t ∈ ts, TextTagOK c good t) :
+    ∃ bts bytes, encodeTags c handlerFmt ts = .ok bts ∧ EzdxfVerif.Codec.encAll r12 bts = .ok bytes
+      ∧ (∀ fuel, ts.length < fuel → EzdxfVerif.Codec.decAll r12 fuel bytes = .ok bts)
+      ∧ bts.map (decodeTag c) = ts := by
+  rw [source_format_fixed]
+  have key : ∃ bts, encodeTags c fixedFmt ts = .ok bts ∧ (∀ bt ∈ bts, EzdxfVerif.Props.C03.TagOK' bt)
+      ∧ bts.map (decodeTag c) = ts := by
+    induction ts with
+    | nil => exact ⟨[], rfl, by simp, rfl⟩
+    | cons t r ih =>
+      obtain ⟨bt, h1, h2, h3⟩ := encodeTag_ok c good L t (h t (by simp))
+      obtain ⟨br, g1, g2, g3⟩ := ih (fun x hx => h x (by simp [hx]))
+      refine ⟨bt :: br, by simp [encodeTags, h1, g1], ?_, by simp [h3, g3]⟩
+      intro x hx
+      rcases List.mem_cons.mp hx with rfl | hx
+      · exact h2
+      · exact g2 x hx
+  obtain ⟨bts, e1, e2, e3⟩ := key
+  obtain ⟨bytes, b1, b2⟩ := EzdxfVerif.Props.C03.bin_file_roundtrip_all r12 bts e2
+  have hlen : bts.length = ts.length := by rw [← e3]; simp
+  exact ⟨bts, bytes, e1, b1, fun fuel hf => b2 fuel (by omega), e3⟩
+
+/-- ... instantiated for every one of the 14 code pages of the source's dict: no codec hypothesis left -/
+theorem binary_file_text_roundtrip_all_pages (r12 : Bool) :
+    (∀ p ∈ sbcsTables, ∀ ts : List TTag, (∀ t ∈ ts, TextTagOK (sbcsCodec p.2) (fun x => x ∈ p.2 ∧ x ≠ undef) t) →
+      ∃ bts bytes, encodeTags (sbcsCodec p.2) handlerFmt ts = .ok bts ∧ EzdxfVerif.Codec.encAll r12 bts = .ok bytes
+        ∧ (∀ fuel, ts.length < fuel → EzdxfVerif.Codec.decAll r12 fuel bytes = .ok bts)
+        ∧ bts.map (decodeTag (sbcsCodec p.2)) = ts)
+    ∧ (∀ T ∈ dbcsTabs, ∀ ts : List TTag, (∀ t ∈ ts, TextTagOK (dbcsCodec T) (dbcsGood T) t) →
+      ∃ bts bytes, encodeTags (dbcsCodec T) handlerFmt ts = .ok bts ∧ EzdxfVerif.Codec.encAll r12 bts = .ok bytes
+        ∧ (∀ fuel, ts.length < fuel → EzdxfVerif.Codec.decAll r12 fuel bytes = .ok bts)
+        ∧ bts.map (decodeTag (dbcsCodec T)) = ts) :=
+  ⟨fun p hp ts h => binary_file_text_roundtrip _ _ (sbcs_tables_lawful p hp) r12 ts h,
+   fun T hT ts h => binary_file_text_roundtrip _ _ (dbcs_tables_lawful T hT) r12 ts h⟩
+
+/-! whole ASCII DXF tag streams (composition with C03's `pairLines` / `parseInt_showCode`) -/
+
+private theorem natDigits_printable (n : Nat) : ∀ y ∈ EzdxfVerif.Codec.natDigits n, 48 ≤ y ∧ y ≤ 57 := by
+  induction n using Nat.strongRecOn with
+  | _ n ih =>
+    intro y hy
+    rw [EzdxfVerif.Codec.natDigits] at hy
+    by_cases h : n < 10
+    · simp only [h, dite_true, List.mem_singleton, EzdxfVerif.Codec.digitChar] at hy
+      omega
+    · simp only [h, dite_false, List.mem_append, List.mem_singleton, EzdxfVerif.Codec.digitChar] at hy
+      rcases hy with hy | hy
+      · exact ih (n / 10) (by omega) y hy
+      · omega
+
+private theorem showCode_printable (c : Nat) : ∀ y ∈ EzdxfVerif.Codec.showCode c, 32 ≤ y ∧ y ≤ 126 := by
+  intro y hy
+  simp only [EzdxfVerif.Codec.showCode, List.mem_append, List.mem_replicate] at hy
+  rcases hy with hy | hy
+  · omega
+  · have := natDigits_printable c y hy; omega
+
+private theorem pairLines_esc (c : Codec) (ts : List (Nat × Str)) :
+    EzdxfVerif.Codec.pairLines (ts.flatMap (fun t => [EzdxfVerif.Codec.showCode t.1, escStr c t.2]))
+      = some (ts.map (fun t => (t.1, escStr c t.2))) := by
+  induction ts with
+  | nil => rfl
+  | cons t r ih =>
+    simp only [List.flatMap_cons, List.cons_append, List.nil_append, EzdxfVerif.Codec.pairLines,
+      EzdxfVerif.Props.C03.parseInt_showCode, ih, List.map_cons]
+    simp
+
+/-- A whole ASCII DXF tag stream through the strict reader, end to end: the text `"%3d\n%s\n"` per tag is encoded with
+    the document codec and the handler of the source, the reader decodes the whole file, splits it into lines, pairs
+    them up (`int(code line)`, C03's model) and `decode_dxf_unicode` returns every value - for every list of tags whose
+    values are plain single-line texts, and every codec with the laws that encodes LF as 0x0A -/
+theorem ascii_file_text_roundtrip (c : Codec) (good : Nat → Prop) (L : Lawful c good)
+    (hlf : good 10 ∧ c.enc 10 = some [10]) (ts : List (Nat × Str))
+    (hs : ∀ t ∈ ts, (∀ x ∈ t.2, x ≤ 0xFFFF ∧ isEscSurrogate x = false ∧ x ≠ 10 ∧ ((c.enc x).isSome → good x))
+      ∧ hasDxfUnicode t.2 = false) :
+    ∃ b, encode c handlerFmt (asciiFileText ts) = .ok b ∧ asciiReadTags (c.dec b) = some ts := by
+  rw [source_format_fixed]
+  have hsome : (c.enc 10).isSome := by simp [hlf.2]
+  have hcode : ∀ k y, y ∈ EzdxfVerif.Codec.showCode k → (c.enc y).isSome ∧ good y ∧ y ≠ 10 ∧ y ≤ 0xFFFF
+      ∧ isEscSurrogate y = false := by
+    intro k y hy
+    have hp := showCode_printable k y hy
+    have ha := L.ascii y hp.1 hp.2
+    refine ⟨by simp [ha.2], ha.1, by omega, by omega, ?_⟩
+    simp [isEscSurrogate]; omega
+  have hall : ∀ x ∈ asciiFileText ts, x ≤ 0xFFFF ∧ isEscSurrogate x = false ∧ ((c.enc x).isSome → good x) := by
+    intro x hx
+    simp only [asciiFileText, joinSep, List.mem_flatMap, List.mem_append, List.mem_cons,
+      List.not_mem_nil, or_false] at hx
+    obtain ⟨v, ⟨t, ht, hv⟩, hxv | hxv⟩ := hx
+    · rcases hv with rfl | rfl
+      · have := hcode t.1 x hxv
+        exact ⟨this.2.2.2.1, this.2.2.2.2, fun _ => this.2.1⟩
+      · have := (hs t ht).1 x hxv
+        exact ⟨this.1, this.2.1, this.2.2.2⟩
+    · subst hxv
+      exact ⟨by omega, by decide, fun _ => hlf.1⟩
+  refine ⟨_, encode_eq_escStr c good L _ (fun x hx => ⟨(hall x hx).1, (hall x hx).2.1⟩), ?_⟩
+  rw [L.dec_enc _ (escStr_good c good L _ (fun x hx => (hall x hx).2.2))]
+  unfold asciiFileText asciiReadTags
+  rw [escStr_joinSep c 10 hsome]
+  have hmapg : ∀ l : List (Nat × Str), (l.flatMap (fun t => [EzdxfVerif.Codec.showCode t.1, t.2])).map (escStr c)
+      = l.flatMap (fun t => [EzdxfVerif.Codec.showCode t.1, escStr c t.2]) := by
+    intro l
+    induction l with
+    | nil => rfl
+    | cons t r ih =>
+      have hid : escStr c (EzdxfVerif.Codec.showCode t.1) = EzdxfVerif.Codec.showCode t.1 :=
+        escStr_all_encodable c _ (fun y hy => (hcode t.1 y hy).1)
+      simp only [List.flatMap_cons, List.map_append, List.map_cons, List.map_nil, hid, ih]
+  have hmap := hmapg ts
+  rw [hmap, splitOn_joinSep 10 _ (by
+    intro w hw
+    simp only [List.mem_flatMap, List.mem_cons, List.not_mem_nil, or_false] at hw
+    obtain ⟨t, ht, rfl | rfl⟩ := hw
+    · exact fun hm => (hcode t.1 10 hm).2.2.1 rfl
+    · exact not_mem_escStr c 10 (by omega) t.2 (fun hm => ((hs t ht).1 10 hm).2.2.1 rfl))]
+  simp only [List.dropLast_concat, pairLines_esc, Option.map_some, List.map_map]
+  congr 1
+  calc ts.map ((fun p => (p.1, decodeDxfUnicode p.2)) ∘ fun t => (t.1, escStr c t.2)) = ts.map id := by
+        apply List.map_congr_left
+        intro t ht
+        simp only [Function.comp, id]
+        rw [unescape_escStr c t.2 (hs t ht).2 (fun x hx => ((hs t ht).1 x hx).1)]
+    _ = ts := by simp
+
+/-- ... for every one of the 14 code pages (no codec hypothesis; the LF side condition is `lf_encodes_itself`) -/
+theorem ascii_file_text_roundtrip_all_pages :
+    (∀ p ∈ sbcsTables, ∀ ts : List (Nat × Str),
+      (∀ t ∈ ts, (∀ x ∈ t.2, x ≤ 0xFFFF ∧ isEscSurrogate x = false ∧ x ≠ 10) ∧ hasDxfUnicode t.2 = false) →
+      ∃ b, encode (sbcsCodec p.2) handlerFmt (asciiFileText ts) = .ok b ∧ asciiReadTags ((sbcsCodec p.2).dec b) = some ts)
+    ∧ (∀ T ∈ dbcsTabs, ∀ ts : List (Nat × Str),
+      (∀ t ∈ ts, (∀ x ∈ t.2, x ≤ 0xFFFF ∧ isEscSurrogate x = false ∧ x ≠ 10 ∧ x ∉ lossyCps T) ∧ hasDxfUnicode t.2 = false) →
+      ∃ b, encode (dbcsCodec T) handlerFmt (asciiFileText ts) = .ok b ∧ asciiReadTags ((dbcsCodec T).dec b) = some ts) := by
+  constructor
+  · intro p hp ts h
+    refine ascii_file_text_roundtrip _ _ (sbcs_tables_lawful p hp) (lf_encodes_itself.1 p hp) ts ?_
+    intro t ht
+    refine ⟨fun x hx => ⟨((h t ht).1 x hx).1, ((h t ht).1 x hx).2.1, ((h t ht).1 x hx).2.2, ?_⟩, (h t ht).2⟩
+    intro he
+    simp only [sbcsCodec] at he
+    split at he
+    · cases he
+    · rename_i hne
+      refine ⟨idxOf_some_mem x p.2 ?_, hne⟩
+      cases hi : idxOf x p.2 <;> simp [hi] at he ⊢
+  · intro T hT ts h
+    refine ascii_file_text_roundtrip _ _ (dbcs_tables_lawful T hT) (lf_encodes_itself.2 T hT) ts ?_
+    intro t ht
+    exact ⟨fun x hx => ⟨((h t ht).1 x hx).1, ((h t ht).1 x hx).2.1, ((h t ht).1 x hx).2.2.1,
+      dbcs_good_of_not_lossy T x ((h t ht).1 x hx).2.2.2⟩, (h t ht).2⟩
+
+/-! code points above U+FFFF under a legacy code page: the consolidated statement through the whole pipeline -/
+
+private theorem hexDigit_lower_printable (d : Nat) (hd : d < 16) : 32 ≤ hexDigit false d ∧ hexDigit false d ≤ 126 := by
+  unfold hexDigit
+  by_cases h : d < 10
+  · simp only [h, if_true]; omega
+  · simp only [h, if_false, Bool.false_eq_true]; omega
+
+private theorem esc8_printable (x : Nat) : ∀ y ∈ escPrefix ++ hexFixed false 8 x, 32 ≤ y ∧ y ≤ 126 := by
+  intro y hy
+  rw [hexFixed8_lower] at hy
+  simp only [escPrefix, List.cons_append, List.nil_append, List.mem_cons, List.not_mem_nil, or_false] at hy
+  have p := fun d (h : d < 16) => hexDigit_lower_printable d h
+  have m : ∀ n, n % 16 < 16 := fun n => Nat.mod_lt _ (by decide)
+  rcases hy with h | h | h | h | h | h | h | h | h | h | h
+  · omega
+  · omega
+  · omega
+  all_goals (rw [h]; exact p _ (m _))
+
+private theorem handler_astral (x : Nat) (h1 : 0x10000 ≤ x) (h2 : x ≤ 0x10FFFF) :
+    handler fixedFmt [x] = .ok (.str (escPrefix ++ hexFixed false 8 x)) := by
+  have hfind : fixedFmt.find x = some (.esc escPrefix 8 false) := by
+    have a1 : ¬ x ≤ 56447 := by omega
+    have a2 : (decide (56448 ≤ x) && decide (x ≤ 56575)) = false := by simp; omega
+    have a3 : (decide (56576 ≤ x) && decide (x ≤ 65535)) = false := by simp; omega
+    have a4 : (decide (65536 ≤ x) && decide (x ≤ 1114111)) = true := by simp; omega
+    simp [Fmt.find, fixedFmt, List.find?, a1, a2, a3, a4]
+  have hlen : pyHex false 8 x = hexFixed false 8 x := by
+    unfold pyHex hexLen
+    have : x.log2 / 4 + 1 ≤ 8 := by
+      have : x.log2 < 21 := (Nat.log2_lt (by omega)).mpr (by omega)
+      omega
+    rw [Nat.max_eq_left this]
+  simp [handler, handlerLoop, hfind, hlen]
+
+/-- THE statement for code points above U+FFFF under a legacy code page (any codec with the laws that cannot encode
+    `x`, i.e. every one of the 14 pages): `x` is written as the eleven ASCII bytes `\U+%08x`; the codec reads them back as
+    that text; `decode_dxf_unicode` then returns U+000p + four hex digits (planes 1-9), the unchanged escape text
+    (planes 10-15: the fourth digit is a lower case letter), or U+0010 + four hex digits (plane 16) - never `x` -/
+theorem astral_legacy_pipeline (c : Codec) (good : Nat → Prop) (L : Lawful c good) (x : Nat)
+    (h1 : 0x10000 ≤ x) (h2 : x ≤ 0x10FFFF) (hx : c.enc x = none) :
+    encode c handlerFmt [x] = .ok (escPrefix ++ hexFixed false 8 x)
+    ∧ c.dec (escPrefix ++ hexFixed false 8 x) = escPrefix ++ hexFixed false 8 x
+    ∧ decodeDxfUnicode (c.dec (escPrefix ++ hexFixed false 8 x))
+        = (if x < 0xA0000 then (x / 65536) :: hexFixed false 4 x
+           else if x < 0x100000 then escPrefix ++ hexFixed false 8 x else 16 :: hexFixed false 4 x)
+    ∧ decodeDxfUnicode (c.dec (escPrefix ++ hexFixed false 8 x)) ≠ [x] := by
+  have hp := esc8_printable x
+  have hdec : c.dec (escPrefix ++ hexFixed false 8 x) = escPrefix ++ hexFixed false 8 x := by
+    have := L.dec_enc (escPrefix ++ hexFixed false 8 x) (fun y hy => (L.ascii y (hp y hy).1 (hp y hy).2).1)
+    rw [encAll_ascii c good L _ hp] at this
+    exact this
+  refine ⟨?_, hdec, ?_, ?_⟩
+  · rw [source_format_fixed]
+    have hfl : flush c fixedFmt [x] = .ok (escPrefix ++ hexFixed false 8 x) := by
+      simp only [flush, List.isEmpty_cons, Bool.false_eq_true, if_false, handler_astral x h1 h2]
+      exact encStrict_ascii c good L _ hp
+    cases hg : c.grouped with
+    | true => simp [encode, encodeAux, hx, hg, hfl]
+    | false =>
+      have hnil : flush c fixedFmt [] = .ok [] := by simp [flush]
+      simp only [encode, encodeAux, hx, hg, Bool.false_eq_true, if_false, hfl, hnil, Except.map, List.append_nil]
+  · rw [hdec]
+    by_cases c1 : x < 0xA0000
+    · simp only [c1, if_true]; exact (astral_legacy_misdecoded x h1 c1).2
+    · by_cases c2 : x < 0x100000
+      · simp only [c1, c2, if_true, if_false]; exact astral_legacy_left_as_text x (by omega) c2
+      · simp only [c1, c2, if_false]; exact astral_legacy_misdecoded_plane16 x (by omega) h2
+  · rw [hdec]; exact astral_legacy_never_roundtrips x h1 h2
+
+/-! `$DWGCODEPAGE` respelled character by character -/
+
+private theorem map_eq_digits (f : Nat → Nat) (hfix : ∀ x, isDigitCp x = true → f x = x)
+    (hno : ∀ x, isDigitCp x = false → isDigitCp (f x) = false) (k : Str) (hk : ∀ x ∈ k, isDigitCp x = true) :
+    ∀ s : Str, s.map f = k ↔ s = k := by
+  induction k with
+  | nil => intro s; simp
+  | cons d k ih =>
+    intro s
+    cases s with
+    | nil => simp
+    | cons a s =>
+      have hd := hk d (by simp)
+      have ih' := ih (fun x hx => hk x (by simp [hx])) s
+      simp only [List.map_cons, List.cons.injEq, ih']
+      constructor
+      · rintro ⟨h1, h2⟩
+        refine ⟨?_, h2⟩
+        cases ha : isDigitCp a with
+        | true => rw [hfix a ha] at h1; exact h1
+        | false =>
+          have := hno a ha
+          rw [h1, hd] at this; cases this
+      · rintro ⟨h1, h2⟩
+        exact ⟨by rw [h1, hfix d hd], h2⟩
+
+private theorem keys_are_digits : codepageToEncoding.all (fun p => p.1.all isDigitCp) = true := by decide +kernel
+
+/-- every registered name is insensitive to case and to any other per-character respelling that leaves digits alone:
+    `toencoding(f(name)) = toencoding(name)` for EVERY string `name` (`ANSI_932` = `ansi_932` = `Ansi_932` = `ａｎｓｉ_932`);
+    the table keys consist of digits only and only the suffix is compared -/
+theorem toencoding_respelling (f : Nat → Nat) (hfix : ∀ x, isDigitCp x = true → f x = x)
+    (hno : ∀ x, isDigitCp x = false → isDigitCp (f x) = false) (name : Str) :
+    toencoding codepageToEncoding (name.map f) = toencoding codepageToEncoding name := by
+  unfold toencoding
+  have hpred : ∀ p ∈ codepageToEncoding, endsWith (name.map f) p.1 = endsWith name p.1 := by
+    intro p hp
+    have hk : ∀ x ∈ p.1, isDigitCp x = true := by
+      have := List.all_eq_true.mp keys_are_digits p hp
+      exact fun x hx => List.all_eq_true.mp this x hx
+    have hiff := map_eq_digits f hfix hno p.1 hk
+    unfold endsWith
+    rw [Bool.eq_iff_iff, List.isSuffixOf_iff_suffix, List.isSuffixOf_iff_suffix]
+    rw [List.suffix_iff_eq_drop, List.suffix_iff_eq_drop]
+    simp only [List.length_map]
+    rw [← List.map_drop]
+    constructor
+    · intro h; exact ((hiff _).mp h.symm).symm
+    · intro h; exact ((hiff _).mpr h.symm).symm
+  have : codepageToEncoding.find? (fun p => endsWith (name.map f) p.1)
+      = codepageToEncoding.find? (fun p => endsWith name p.1) := by
+    have gen : ∀ l : Dict, (∀ p ∈ l, endsWith (name.map f) p.1 = endsWith name p.1) →
+        l.find? (fun p => endsWith (name.map f) p.1) = l.find? (fun p => endsWith name p.1) := by
+      intro l
+      induction l with
+      | nil => intro _; rfl
+      | cons a r ih =>
+        intro hl
+        simp only [List.find?_cons, hl a (by simp), ih (fun p hp => hl p (by simp [hp]))]
+    exact gen _ hpred
+  rw [this]
+
 /-! ## non-vacuity: concrete values meet the hypotheses and the statements compute -/
 
 -- "x€ä" under cp1251 with the fixed handler: € = 0x88 is encodable, ä is escaped, and decoded again
@@ -2445,6 +2775,15 @@ example : hasMif [65, 92, 77, 43, 49, 52, 49] = false ∧ mifPrefix.isPrefixOf [
   == ⟨[65, 67, 49, 48, 49, 53], [65, 78, 83, 73, 95, 49, 50, 53, 49], [99, 112, 49, 50, 53, 49]⟩
 -- write_str: "  9\n$MENU\n  1\na<U+2028>b\n" is one header variable name and one value
 #guard writeStrTags [32, 57, 10, 36, 77, 10, 49, 10, 97, 0x2028, 98, 10] == [([32, 57], [36, 77]), ([49], [97, 0x2028, 98])]
+-- final round: U+1F600 cannot be encoded by any of the pages (hypothesis of astral_legacy_pipeline); a tag list meets TextTagOK
+example : (sbcsCodec cp1252Table).enc 0x1F600 = none ∧ (dbcsCodec cp932Tab).enc 0x1F600 = none := by decide +kernel
+example : TextTagOK asciiCodec (fun x => x < 128) ⟨1, .text [65, 0x20AC]⟩ ∧ TextTagOK asciiCodec (fun x => x < 128) ⟨70, .raw (.int 5)⟩ := by
+  refine ⟨⟨by decide, by decide, by decide, by decide⟩, ⟨by decide, ?_, by intro b h; cases h⟩⟩
+  simp [EzdxfVerif.Props.C03.ValWF, EzdxfVerif.Codec.writerCls, EzdxfVerif.Codec.isBinary, EzdxfVerif.Codec.isBytes,
+    EzdxfVerif.Codec.isInt16, EzdxfVerif.Codec.inR]
+#guard toencoding codepageToEncoding ([65, 78, 83, 73, 95, 57, 51, 50].map (fun x => if 65 ≤ x ∧ x ≤ 90 then x + 32 else x)) == [99, 112, 57, 51, 50]
+#guard asciiReadTags (asciiFileText [(1, [65, 66]), (70, [53])]) == some [(1, [65, 66]), (70, [53])]
+#guard asciiFileText [(1, [65])] == [32, 32, 49, 10, 65, 10]
 -- the name tables are not empty
 example : toencoding codepageToEncoding [65, 78, 83, 73, 95, 57, 51, 54] = [103, 98, 107] := by decide
 example : tocodepage encodingToCodepage [103, 98, 107] = [65, 78, 83, 73, 95, 57, 51, 54] := by decide
